@@ -22,13 +22,24 @@ def units(tier):
             {"name": "vector", "timeout": 1800}]
 
 
+_DONE_ENC = [0]
+
+
 def _mk(r, v, d):
+    import jax
     import jax.numpy as jnp
     from lerax.buffer import RolloutBuffer
 
     z = jnp.zeros_like(jnp.asarray(r, dtype=jnp.float32))
+    dd = jnp.asarray(d, bool)
+    if not isinstance(d, jax.core.Tracer):
+        # the episode-end flags in every encoding a caller may hold them in (0/1 integers are common)
+        _DONE_ENC[0] += 1
+        k = _DONE_ENC[0] % 6
+        dn = np.asarray(d).astype(bool)
+        dd = [dd, dn.astype(np.int32), dn.astype(np.uint8), jnp.asarray(dn.astype(np.int32)), [int(x) for x in dn], dn][k]
     return RolloutBuffer(observations=z, actions=z, rewards=jnp.asarray(r, jnp.float32),
-                         dones=jnp.asarray(d, bool), log_probs=z, values=jnp.asarray(v, jnp.float32),
+                         dones=dd, log_probs=z, values=jnp.asarray(v, jnp.float32),
                          states=None)
 
 
